@@ -86,7 +86,7 @@ func pop(kind, name string) apiEvent {
 		pos++ // engine-side environment value: not consumed natively
 	}
 	if pos >= len(cur.API) {
-		if len(res.Failures) > 0 || cur.Repeat > 0 {
+		if len(res.Failures) > 0 || (cur.Repeat > 0 && cur.Want != "") {
 			// the recorded path ended at the violated assertion (or this is a prefix-only case)
 			panic(abortCase{"end of recorded prefix"})
 		}
@@ -359,6 +359,15 @@ func ReplayMain(entries map[string]func()) {
 				}()
 				f()
 			}()
+			if c.Repeat > 0 && c.Want == "" {
+				// schedule-dependent counterexample: repeat with the real scheduler until it shows
+				if len(res.Failures) > 0 || res.Panic != "" || res.Desync != "" {
+					break
+				}
+				res.Observes = res.Observes[:0]
+				res.Reached = res.Reached[:0]
+				continue
+			}
 			if c.Repeat > 0 {
 				for _, l := range res.Reached {
 					seen[l] = true
@@ -369,7 +378,7 @@ func ReplayMain(entries map[string]func()) {
 				}
 			}
 		}
-		if c.Repeat > 0 {
+		if c.Repeat > 0 && c.Want != "" {
 			for l := range seen {
 				res.Reached = append(res.Reached, l)
 			}
